@@ -110,15 +110,27 @@ class RawPayloadDecoder(AbstractSimplePayloadDecoder):
 
             return
 
+        # whatever is yielded last is taken for the value: keep the markers
+        # of a substrate underrun apart from the item that has been decoded
+        result = noValue
+
         while True:
             for value in decodeFun(
                     substrate, asn1Spec, tagSet, length,
                     allowEoo=True, **options):
 
-                if value is eoo.endOfOctets:
-                    return
+                if isinstance(value, SubstrateUnderrunError):
+                    yield value
 
-                yield value
+            if value is eoo.endOfOctets:
+                break
+
+            result = value
+
+        if result is noValue:
+            raise error.PyAsn1Error('No value under explicit tag %s' % (tagSet,))
+
+        yield result
 
 
 rawPayloadDecoder = RawPayloadDecoder()
